@@ -647,9 +647,15 @@ impl ISocket for RouterSocket {
         .strategy
         .prepare_wire_frames(destination_identity_msg, frames, &self.framing);
 
-    // Final flag setting on the last frame
-    if let Some(last_frame) = zmtp_wire_frames.last_mut() {
-      last_frame.set_flags(last_frame.flags() & !MsgFlags::MORE);
+    // A logical message is one ZMTP message on the wire: MORE on every frame but the last,
+    // whatever flags the application left on the payload frames it passed in.
+    let wire_frame_count = zmtp_wire_frames.len();
+    for (i, frame) in zmtp_wire_frames.iter_mut().enumerate() {
+      if i + 1 < wire_frame_count {
+        frame.set_flags(frame.flags() | MsgFlags::MORE);
+      } else {
+        frame.set_flags(frame.flags() & !MsgFlags::MORE);
+      }
     }
 
     // 5. Send the message.
